@@ -119,10 +119,16 @@ def step (st : St) (line : String) : St × List String :=
       | [op, regs] => (op, nats regs)
       | _ => ("?", [])
     -- the model's idea of what the assembler records, compared as sets
-    let same := used.all fun (op, regs) =>
-      let mine := Rtl.destRegs st.arch st.prog op
-      regs.all (fun r => mine.contains r) && mine.all (fun r => regs.contains r)
-    ({ st with used := some used }, [if same then "O ok" else "O destregs-differ " ++ line])
+    -- hypothesis of `onlyDestRegs_sound`: the sets the generator used contain the model's destRegs;
+    -- when something was recorded for an opcode (not every arm kept) the sets must be equal
+    let all := 2 ^ st.arch.r
+    let sound := used.all fun (op, regs) =>
+      (Rtl.destRegs st.arch st.prog op).all (fun r => regs.contains r)
+    let exact := used.all fun (op, regs) =>
+      regs.length == all || regs.all (fun r => (Rtl.destRegs st.arch st.prog op).contains r)
+    let pruned := used.any fun (_, regs) => regs.length < all
+    ({ st with used := some used },
+      [if sound && exact then (if pruned then "O ok pruned" else "O ok") else "O destregs-differ " ++ line])
   | "P" :: "err" :: _ => ({ st with vm := none }, [line])
   | "P" :: ws => ({ st with prog := ws.map ofString01 }, [line])
   | "T" :: _ =>
